@@ -414,6 +414,30 @@ static void run_block(const Case& c, bool big)
         if (twin[1]) { sw[1] = {true, twin[1], 0}; try_wire(sw, {{}}, "witness twin prefilled at position 1", false); sw[1] = {true, stripped[1], 0}; try_wire(sw, {{}}, "stripped twin prefilled at position 1", false); }
         sw[1] = {true, decoy, 0};
         try_wire(sw, {{}}, "decoy prefilled at position 1", false);
+        // (b2) a fully witness-stripped copy of a segwit block (coinbase sent without its witness reserved value,
+        // every witness transaction without its witness): same txids, merkle root and header, different wtxids,
+        // commitment no longer matches — must never be reconstructed as OK. All prefilled; and coinbase prefilled
+        // with the others announced by the short id of the stripped form and answered stripped in blocktxn.
+        if (c.has_segwit) {
+            std::vector<CTransactionRef> bare(n);
+            for (int i = 0; i < n; i++) {
+                CMutableTransaction m(*c.vtx[i]);
+                for (auto& in : m.vin) in.scriptWitness.SetNull();
+                bare[i] = MakeTransactionRef(m);
+            }
+            std::vector<Slot> allpf;
+            for (int i = 0; i < n; i++) allpf.push_back({true, bare[i], 0});
+            try_wire(allpf, {{}}, "witness-stripped copy, all prefilled", false);
+            std::vector<Slot> sid;
+            std::vector<CTransactionRef> ans;
+            for (int i = 0; i < n; i++) { sid.push_back({i == 0, bare[i], ref_sid(key, bare[i]->GetWitnessHash().ToUint256())}); if (i) ans.push_back(bare[i]); }
+            try_wire(sid, {ans}, "witness-stripped copy, coinbase prefilled bare, rest by stripped short id + stripped blocktxn", false);
+            // genuine witness transactions in the mempool do not match the stripped short ids: same outcome required
+            std::vector<CTransactionRef> real(c.vtx.begin() + 1, c.vtx.end());
+            pool_set(real);
+            try_wire(sid, {ans}, "witness-stripped copy with the genuine transactions in the mempool", false);
+            pool_set({});
+        }
         // short id of a decoy listed; decoy in the mempool
         pool_set({decoy});
         std::vector<Slot> ds;
